@@ -30,32 +30,53 @@ def token(obj: object) -> str:
     return f"{type(obj).__name__}={_ADDR.sub('0x?', repr(obj))[:200]}"
 
 
-def do_import(module: str, form: str) -> None:
+def do_import(module: str, form: str) -> str | None:
+    """Executes one import statement; returns a complaint when the statement did not hand the
+    caller the module it names (importing module X means getting module chartparse.X)."""
     full = "chartparse." + module
+    ns: dict = {}
     if form == "importlib":
-        importlib.import_module(full)
+        got = importlib.import_module(full)
     elif form == "import":
-        exec(f"import {full}", {})
+        exec(f"import {full}", ns)
+        got = getattr(ns["chartparse"], module, None)
     elif form == "from":
-        exec(f"from {full} import *", {})
+        exec(f"from {full} import *", ns)
+        got = sys.modules.get(full)
+        if got is not None:
+            want = getattr(got, "__all__", None)
+            if want is None:
+                want = [k for k in vars(got) if not k.startswith("_")]
+            missing = sorted(k for k in want if k not in ns or ns[k] is not getattr(got, k, None))
+            if missing:
+                return f"'from {full} import *' did not bind {missing[:5]} to the module's objects"
     elif form == "from_pkg":
-        exec(f"from chartparse import {module}", {})
+        exec(f"from chartparse import {module}", ns)
+        got = ns.get(module)
     else:
         raise ValueError(form)
+    if not isinstance(got, types.ModuleType) or got.__name__ != full or got is not sys.modules.get(full):
+        return (f"{form} form for {full} bound {token(got)} instead of the module {full} "
+                f"(sys.modules has it: {full in sys.modules})")
+    return None
 
 
 def main() -> None:
     req = json.load(sys.stdin)
-    out: dict = {"ok": True, "failed": None}
+    out: dict = {"ok": True, "failed": None, "misbound": []}
     step = 0
     try:
         for module, form in req["imports"]:
             cur = [module, form, "history", step]
-            do_import(module, form)
+            bad = do_import(module, form)
+            if bad:
+                out["misbound"].append({"module": module, "form": form, "step": step, "what": bad})
             step += 1
         for module in req["rest"]:
             cur = [module, "importlib", "rest", step]
-            do_import(module, "importlib")
+            bad = do_import(module, "importlib")
+            if bad:
+                out["misbound"].append({"module": module, "form": "importlib", "step": step, "what": bad})
             step += 1
     except BaseException as e:  # noqa: BLE001
         out["ok"] = False
